@@ -62,13 +62,30 @@ type Upstream struct {
 	live  atomic.Int64 // open SOCKS5 associations
 	total atomic.Int64
 	conns sync.Map
+	hs    atomic.Pointer[chan struct{}] // when set: the UDP ASSOCIATE reply is held until the channel is closed
+	held  atomic.Int64                  // handshakes currently held
 }
 
-// NewWorld binds nsock target sockets on consecutive loopback IPs starting at base, all with the
-// same port, plus one alternative reply socket per target (same IP, different port).
-func NewWorld(scenario uint32, base netip.Addr, nsock int) (*World, error) {
+// HoldHandshakes makes the SOCKS5 upstream accept TCP connections and read the requests but hold
+// its UDP ASSOCIATE replies until gate is closed (session initialisation in the relay keeps running).
+// nil removes the hold for later handshakes.
+func (u *Upstream) HoldHandshakes(gate chan struct{}) {
+	if gate == nil {
+		u.hs.Store(nil)
+		return
+	}
+	u.hs.Store(&gate)
+}
+
+// Held returns how many handshakes are being held right now.
+func (u *Upstream) Held() int64 { return u.held.Load() }
+
+// NewWorld binds nsock target sockets on consecutive loopback IPs starting at base (and, with v6,
+// one more on ::1), all with the same port, plus one alternative reply socket per target (same IP,
+// different port).
+func NewWorld(scenario uint32, base netip.Addr, nsock int, v6 bool) (*World, error) {
 	for range 40 {
-		w, err := newWorldOnce(scenario, base, nsock)
+		w, err := newWorldOnce(scenario, base, nsock, v6)
 		if err == nil {
 			return w, nil
 		}
@@ -81,12 +98,15 @@ func NewWorld(scenario uint32, base netip.Addr, nsock int) (*World, error) {
 
 var errPortTaken = errors.New("port taken")
 
-func newWorldOnce(scenario uint32, base netip.Addr, nsock int) (*World, error) {
+func newWorldOnce(scenario uint32, base netip.Addr, nsock int, v6 bool) (*World, error) {
 	w := &World{Scenario: scenario, last: map[uint16]Arrival{}}
 	ip := base
 	for i := 0; i < nsock; i++ {
 		w.IPs = append(w.IPs, ip)
 		ip = ip.Next()
+	}
+	if v6 {
+		w.IPs = append(w.IPs, netip.IPv6Loopback())
 	}
 	c0, err := net.ListenUDP("udp", net.UDPAddrFromAddrPort(netip.AddrPortFrom(w.IPs[0], 0)))
 	if err != nil {
@@ -315,6 +335,16 @@ func (u *Upstream) handleAssoc(c *net.TCPConn) {
 	}
 	if _, err := io.ReadFull(c, b[:alen]); err != nil {
 		return
+	}
+	if g := u.hs.Load(); g != nil {
+		u.held.Add(1)
+		c.SetDeadline(time.Time{})
+		select {
+		case <-*g:
+		case <-time.After(60 * time.Second):
+		}
+		u.held.Add(-1)
+		c.SetDeadline(time.Now().Add(10 * time.Second))
 	}
 	ip := u.Addr.Addr().As4()
 	reply := append([]byte{5, 0, 0, 1}, ip[:]...)
